@@ -21,6 +21,21 @@ theorem endsSlash_eq {p : Path} (h : endsSlash p = true) : p = p.dropLast ++ ['/
   rw [← hl]
   exact (List.dropLast_concat_getLast hne).symm
 
+theorem stripN_spec : ∀ (n : Nat) (p : Path), ∃ k, p = stripN n p ++ List.replicate k '/' := by
+  intro n
+  induction n with
+  | zero => intro p; exact ⟨0, by simp [stripN]⟩
+  | succ n ih =>
+    intro p
+    simp only [stripN]
+    split
+    · rename_i he
+      obtain ⟨k, hk⟩ := ih p.dropLast
+      refine ⟨k + 1, ?_⟩
+      rw [List.replicate_succ', ← List.append_assoc, ← hk]
+      exact endsSlash_eq he
+    · exact ⟨0, by simp⟩
+
 theorem noDbl_of_hasDbl {p : Path} (h : hasDbl p = false) : NoDbl p := by
   rintro ⟨s, t, e⟩
   induction s generalizing p with
@@ -63,7 +78,15 @@ theorem cfgOKB_sound {c : Cfg} {s : St} (h : cfgOKB c s = true) : CfgOK c s := b
       · cases he : endsSlash f with
         | false => exact Or.inl (noTrailing_of_endsSlash he)
         | true =>
-          exact Or.inr ⟨f.dropLast, by simpa using hc.1, noTrailing_of_endsSlash hc.2, endsSlash_eq he⟩
+          obtain ⟨k, hk⟩ := stripN_spec f.length f
+          refine Or.inr ⟨stripSlashes f, by simpa using hc.1, noTrailing_of_endsSlash hc.2, k, ?_, hk⟩
+          cases k with
+          | zero =>
+            exfalso
+            have h0 : f = stripSlashes f := by simpa [stripSlashes] using hk
+            rw [← h0, he] at hc
+            exact absurd hc.2 (by decide)
+          | succ k => omega
   · intro d hd
     exact noTrailing_of_endsSlash (h3 d hd).1
   · intro d hd
